@@ -23,6 +23,7 @@ func IndexTable(db objects.Store, tblSum []byte, tbl *objects.Table, logger logr
 		err       error
 		bb        []byte
 		blkIdxSum []byte
+		rowsCount int
 	)
 	for _, k := range tbl.PK {
 		if int(k) >= len(tbl.Columns) {
@@ -39,6 +40,10 @@ func IndexTable(db objects.Store, tblSum []byte, tbl *objects.Table, logger logr
 		if len(blk) == 0 {
 			return fmt.Errorf("block %x is empty", sum)
 		}
+		if len(blk) > objects.BlockSize || (i < len(tbl.Blocks)-1 && len(blk) != objects.BlockSize) {
+			return fmt.Errorf("block %x (%d/%d) has %d rows", sum, i, len(tbl.Blocks), len(blk))
+		}
+		rowsCount += len(blk)
 		for _, row := range blk {
 			if len(row) != len(tbl.Columns) {
 				return fmt.Errorf("block %x has a row of %d cells, table has %d columns", sum, len(row), len(tbl.Columns))
@@ -67,6 +72,9 @@ func IndexTable(db objects.Store, tblSum []byte, tbl *objects.Table, logger logr
 		if !bytes.Equal(blkIdxSum, tbl.BlockIndices[i]) {
 			return fmt.Errorf("block index at offset %d has different sum: %x != %x", i, blkIdxSum, tbl.BlockIndices[i])
 		}
+	}
+	if rowsCount != int(tbl.RowsCount) {
+		return fmt.Errorf("table records %d rows but its blocks hold %d", tbl.RowsCount, rowsCount)
 	}
 	buf.Reset()
 	_, err = objects.WriteBlockTo(enc, buf, tblIdx)
